@@ -826,7 +826,7 @@ impl Response {
 
                 buffer_as_u8_array = &buffer;
 
-                let content_range = ContentRange {
+                let mut content_range = ContentRange {
                     unit: Range::BYTES.to_string(),
                     range: Range {
                         start: 0,
@@ -836,6 +836,21 @@ impl Response {
                     body: Vec::from(buffer_as_u8_array),
                     content_type: content_type.to_string()
                 };
+
+                // if response contains Content-Range, range and size are taken from it
+                let boxed_content_range_header = response.get_header(Header::_CONTENT_RANGE.to_string());
+                if boxed_content_range_header.is_some() {
+                    let content_range_header = boxed_content_range_header.unwrap();
+                    let boxed_result = Range::_parse_content_range_header_value(content_range_header.value.to_string());
+                    if boxed_result.is_err() {
+                        return Err(boxed_result.err().unwrap());
+                    }
+                    let (start, end, size) = boxed_result.unwrap();
+                    content_range.range.start = start as u64;
+                    content_range.range.end = end as u64;
+                    content_range.size = size.to_string();
+                }
+
                 response.content_range_list = vec![content_range];
 
 
